@@ -60,6 +60,44 @@ Theorem C06_dense :
 Proof. intros. apply rhoZ_pk_ext. apply pk_impl_spec. Qed.
 Print Assumptions C06_dense.
 
+(* the IA-STL dense-time offline visitors (model DenseVisitor.deval_pk with the predicate kinds the visitors compute, compared
+   list for list with evaluate() by the check): the list they build denotes the tick semantics with the property's kinds.
+   DiffLaws: sign laws of the difference and of abs (true of floats without NaN; ExtZ_diff_laws for the executable instance) *)
+From RV Require Import DenseMergeCorrect DenseEvalCorrect DenseIA DenseVisitor DenseConst DenseEvalMain.
+Theorem C06_dense_visitor :
+  forall (VS : Val) (AR : Arith VS), (forall l r, neg (a2 AR Sub l r) = a2 AR Sub r l) -> DiffLaws AR ->
+  forall (io : nat -> bool) (sem : semantics) (W : list dsig) (tend : Z), (0 <= tend)%Z ->
+    (forall s, In s W -> dsorted s /\ s <> [] /\ (forall a v, In (a, v) s -> (a <= tend)%Z)) ->
+    (forall s, In s W -> start s = 0%Z) ->
+  forall p, dfrag p = true -> wf_bounds p = true -> (nvars p <= length W)%nat ->
+    exists s, deval_pk AR (pk_impl io sem) p W = Some s /\ dsorted s /\ s <> [] /\ start s = 0%Z /\
+      forall t, den_opt s t = if (t <? 0)%Z then None else Some (rhoZ AR (pk_spec io sem) W tend p t).
+Proof.
+  intros VS AR SN DL io sem W tend Ht HW H0 p Hf Hb Hn.
+  destruct (deval_pk_correct AR (pk_impl io sem) SN (or_intror DL) W tend Ht HW p Hf Hb (or_intror H0) Hn) as (s & E & G).
+  rewrite (dstart0 W p H0 Hn) in G. destruct G as (G1 & G2 & G3 & G4). exists s. split; [exact E|]. split; [exact G1|]. split; [exact G2|]. split; [exact G3|].
+  intros t. rewrite G4. destruct (t <? 0)%Z; [reflexivity|]. f_equal. apply rhoZ_pk_ext. apply pk_impl_spec.
+Qed.
+Print Assumptions C06_dense_visitor.
+
+Lemma ExtZ_diff_laws : DiffLaws ExtZArith.
+Proof.
+  split.
+  - reflexivity.
+  - intros [|a|] [|b|]; cbn; try reflexivity; destruct (Z.leb_spec (a + - b) 0), (Z.leb_spec a b); try reflexivity; lia.
+  - intros [|a|] [|b|]; cbn; try reflexivity; destruct (Z.leb_spec 0 (a + - b)), (Z.leb_spec b a); try reflexivity; lia.
+  - intros [|a|]; cbn; try reflexivity. apply Z.leb_le. lia.
+  - intros [|a|]; try reflexivity. unfold veqb. cbn. destruct (Z.leb_spec (Z.abs a) 0), (Z.leb_spec 0 (Z.abs a)), (Z.leb_spec a 0), (Z.leb_spec 0 a); cbn; try reflexivity; lia.
+Qed.
+
+Example C06_dense_visitor_nonvacuous :
+  let io := fun x => Nat.eqb x 0 in
+  let p : @formula ExtZVal := OnceT 0 2 (And (Pred CGt (Var 0) (Const (Fin 1))) (Pred CLeq (Var 1) (Const (Fin 2)))) in
+  let W : list (@dsig ExtZVal) := [[(0%Z, Fin 3); (4%Z, Fin 1); (9%Z, Fin 5)]; [(0%Z, Fin 2); (4%Z, Fin 3); (6%Z, Fin 0)]] in
+  deval_pk ExtZArith (pk_impl io OutputRobustness) p W = Some [(0%Z, Fin 0); (6%Z, NegInf); (9%Z, Fin 2)] /\
+  deval_pk ExtZArith (pk_impl io Standard) p W = deval ExtZArith p W.
+Proof. cbv zeta. split; vm_compute; reflexivity. Qed.
+
 Example C06_nonvacuous :
   let io := fun x => Nat.eqb x 0 in   (* variable 0 is an input, variable 1 an output *)
   let p : @formula ExtZVal := And (Pred CGeq (Var 0) (Const (Fin 1))) (Once (Pred CLeq (A2 Add (Var 0) (Var 1)) (Const (Fin 5)))) in
